@@ -35,7 +35,10 @@ Gas(g, d, tag) == IF g = <<>> THEN <<[clause |-> "C09.gas_" \o tag \o "_accepts"
                   ELSE LET d2 == TLCEval(D!Decode(g, 32)) IN
                        IF ~d2.ok THEN <<[clause |-> "C09.gas_" \o tag \o "_same", why |-> "undecodable"]>>
                        ELSE LET df == D!InstrDiff(d, d2) IN
-                            IF df[1] # "" THEN <<[clause |-> "C09.gas_" \o tag \o "_same", why |-> df[1]]>>
+                            IF df[1] # "" THEN <<[clause |-> "C09.gas_" \o tag \o "_same",
+                                                   \* root-cause tag: an index-only [ebp*1+d] operand (rendered as the base form [ebp+d]: SS instead of DS)
+                                                   why |-> IF df[1] = "seg" /\ \E j \in 1..Len(d.ops) : d.ops[j].k = "mem" /\ d.ops[j].b = -1 /\ d.ops[j].i = 5 /\ d.ops[j].sc = 1
+                                                           THEN "seg:index_only_ebp" ELSE df[1]]>>
                             \* an operand-size prefix that matters (stack / flow forms) must survive the rendering
                             ELSE IF "66" \in d.use /\ d.os # d2.os THEN <<[clause |-> "C09.gas_" \o tag \o "_same", why |-> "opsize"]>>
                             ELSE <<>>
